@@ -6,7 +6,7 @@
 #include "refop.h"
 
 static const double EPS = 2.220446049250313e-16;
-static const double CTOL = 256.0;
+static const double CTOL = 32.0;
 
 static uint64_t ulpDist(double a, double b)
 {
